@@ -91,6 +91,17 @@ fn scenarios(thorough: bool) -> Vec<Scenario> {
                     y.name = format!("{} node 1 diverges from frame 9 interval=1", y.name);
                     v.push(y);
                 }
+                if s.peers.iter().any(|p| p.locals.len() >= 2) && sched < 2 {
+                    let mut z = s.clone();
+                    let node = z.peers.iter().position(|p| p.locals.len() >= 2).unwrap();
+                    let (h0, h1) = (z.peers[node].locals[0], z.peers[node].locals[1]);
+                    z.script.push(ScriptItem { round: 0, node, action: Action::SetDelay { handle: h1, delay: 2 } });
+                    z.script.push(ScriptItem { round: 9, node, action: Action::SetDelay { handle: h0, delay: 3 } });
+                    z.script.push(ScriptItem { round: 15, node, action: Action::SetDelay { handle: h1, delay: 0 } });
+                    z.checks = CK_C02 | CK_C04;
+                    z.name = format!("{} local players get different delays (before the first frame and mid-run)", z.name);
+                    v.push(z);
+                }
                 v.push(s);
             }
         }
